@@ -250,6 +250,13 @@ def _mk():
     add("einsum_sum", "{m}.einsum('ij,ij->i', {0}, {0})", exact=False, cond="a0.ndim==2", fam="linalg", rewrite=False)
     add("einsum_all", "{m}.einsum('ij,ij->', {0}, {0})", exact=False, cond="a0.ndim==2", fam="linalg", rewrite=False)
     add("einsum_mm_all", "{m}.einsum('ij,kj->', {0}, {0})", exact=False, cond="a0.ndim==2", fam="linalg", rewrite=False)
+    add("diagonal", "{m}.diagonal({0})", cond="a0.ndim==2", fam="routine", rewrite=False)
+    add("diagonal_off1", "{m}.diagonal({0}, offset=1)", cond="a0.ndim==2 and a0.shape[1]>=2", fam="routine", rewrite=False)
+    add("trace", "{m}.trace({0})", cond="a0.ndim==2", exact=False, fam="routine", rewrite=False)
+    add("vindex_pts", "{0}.vindex[[0, 1, 0], [1, 0, 0]]", "{0}[[0, 1, 0], [1, 0, 0]]", cond="a0.ndim==2 and a0.shape[0]>=2 and a0.shape[1]>=2", fam="routine", rewrite=False)
+    add("sq_plus_T", "{0} * {0} + {0}.T", cond="a0.ndim==2 and a0.shape[0]==a0.shape[1]", fam="routine", rewrite=False)
+    add("where_gt_T", "{m}.where({0} > {0}.T, {0}, {0}.T)", cond="a0.ndim==2 and a0.shape[0]==a0.shape[1]", fam="routine", rewrite=False)
+    add("sub_T_mul", "({0} - {0}.T) * {0}", cond="a0.ndim==2 and a0.shape[0]==a0.shape[1]", fam="routine", rewrite=False)
     add("isin", "{m}.isin({0}, [11, 13, 15])", fam="routine", rewrite=False)
     add("round", "{m}.round({0} / 3, 1)", exact=False, fam="routine", rewrite=False)
     add("tril", "{m}.tril({0})", cond=D2, fam="routine", rewrite=False)
